@@ -79,35 +79,21 @@ theorem C12_default_decision (s : State) (p : Nat) :
   unfold State.showExplicit
   rfl
 
-/-- **the kill set**: the flags after `_begin_hand_killing` are "cannot win now" for the players
-    still in the hand and unchanged (false) for the others -/
-theorem C12_kill_set (s : State) (W : Nat → Bool)
+/-- the loop of `_begin_hand_killing` (`killStep` of the model) over all players -/
+theorem kill_fold (s : State) (W : Nat → Bool)
     (hW : ∀ i, i < cfg.n → getB s.statuses i = true → s.canWinNow cfg env i = .ok (W i))
     (hlen : s.handKilling.length = cfg.n) :
-    ∃ hk, (playerIndices cfg).foldl (fun (acc : Except Err (List Bool)) i =>
-        match acc with
-        | .error e => .error e
-        | .ok l =>
-          if !getB s.statuses i then .ok l
-          else match s.canWinNow cfg env i with
-            | .error e => .error e
-            | .ok b => .ok (l.set i (!b))) (.ok s.handKilling) = .ok hk ∧
-      hk.length = cfg.n ∧
-      ∀ i, i < cfg.n → getB hk i = (if getB s.statuses i then !W i else getB s.handKilling i) := by
-  unfold playerIndices
-  -- generalise: fold over a prefix
-  have key : ∀ (k : Nat), k ≤ cfg.n →
-      ∃ hk, (List.range k).foldl (fun (acc : Except Err (List Bool)) i =>
-        match acc with
-        | .error e => .error e
-        | .ok l =>
-          if !getB s.statuses i then .ok l
-          else match s.canWinNow cfg env i with
-            | .error e => .error e
-            | .ok b => .ok (l.set i (!b))) (.ok s.handKilling) = .ok hk ∧
+    ∃ hk, (playerIndices cfg).foldl (killStep cfg env s) (.ok s.handKilling) = .ok hk ∧
       hk.length = cfg.n ∧
       ∀ i, i < cfg.n → getB hk i =
-        (if i < k then (if getB s.statuses i then !W i else getB s.handKilling i) else getB s.handKilling i) := by
+        (if getB s.statuses i then (decide (1 < s.liveCount) && !W i) else getB s.handKilling i) := by
+  unfold playerIndices
+  have key : ∀ (k : Nat), k ≤ cfg.n →
+      ∃ hk, (List.range k).foldl (killStep cfg env s) (.ok s.handKilling) = .ok hk ∧
+      hk.length = cfg.n ∧
+      ∀ i, i < cfg.n → getB hk i =
+        (if i < k then (if getB s.statuses i then (decide (1 < s.liveCount) && !W i) else getB s.handKilling i)
+         else getB s.handKilling i) := by
     intro k
     induction k with
     | zero => intro _; exact ⟨s.handKilling, rfl, hlen, by intro i _; simp⟩
@@ -117,20 +103,33 @@ theorem C12_kill_set (s : State) (W : Nat → Bool)
       rw [List.range_succ, List.foldl_append, h1]
       simp only [List.foldl_cons, List.foldl_nil]
       by_cases hs : getB s.statuses k = true
-      · simp only [hs, Bool.not_true, Bool.false_eq_true, if_false, hW k (by omega) hs]
+      · -- the value written for player `k`
+        have hstep : killStep cfg env s (.ok hk) k = .ok (hk.set k (decide (1 < s.liveCount) && !W k)) := by
+          unfold killStep
+          simp only [hs, Bool.not_true, Bool.false_eq_true, if_false]
+          by_cases hl : s.liveCount ≤ 1
+          · have : ¬ 1 < s.liveCount := by omega
+            simp [hl, this]
+          · have : 1 < s.liveCount := by omega
+            simp [hl, this, hW k (by omega) hs]
+        rw [hstep]
         refine ⟨_, rfl, by simp [h2], ?_⟩
         intro i hi
         by_cases hik : k = i
         · subst hik
-          have : getB (hk.set k (!W k)) k = !W k := by simp [getB, h2, hi]
+          have : getB (hk.set k (decide (1 < s.liveCount) && !W k)) k = (decide (1 < s.liveCount) && !W k) := by
+            simp [getB, h2, hi]
           rw [this]; simp [hs]
-        · have : getB (hk.set k (!W k)) i = getB hk i := by simp [getB, List.getElem?_set_ne hik]
+        · have : getB (hk.set k (decide (1 < s.liveCount) && !W k)) i = getB hk i := by
+            simp [getB, List.getElem?_set_ne hik]
           rw [this, h3 i hi]
           have : (i < k + 1) = (i < k) := by
             apply propext; constructor <;> intro h <;> omega
           simp only [this]
       · have hs' : getB s.statuses k = false := by simpa using hs
-        simp only [hs', Bool.not_false, if_true]
+        have hstep : killStep cfg env s (.ok hk) k = .ok hk := by
+          unfold killStep; simp [hs']
+        rw [hstep]
         refine ⟨hk, rfl, h2, ?_⟩
         intro i hi
         rw [h3 i hi]
@@ -141,6 +140,33 @@ theorem C12_kill_set (s : State) (W : Nat → Bool)
           simp only [this]
   obtain ⟨hk, h1, h2, h3⟩ := key cfg.n (Nat.le_refl _)
   exact ⟨hk, h1, h2, fun i hi => by rw [h3 i hi]; simp [hi]⟩
+
+/-- **the kill set**: `_begin_hand_killing` flags exactly the players still in the hand who cannot win now —
+    and nobody when a single player is left (he takes the pots whatever he holds; since the F24 repair) —
+    and leaves everything else as it is -/
+theorem C12_kill_set (m : M) (rest : List Ctl) (hctl : m.ctl = .beginKill :: rest)
+    (hclear : anyB m.st.handKilling = false) (W : Nat → Bool)
+    (hW : ∀ i, i < cfg.n → getB m.st.statuses i = true → m.st.canWinNow cfg env i = .ok (W i))
+    (hlen : m.st.handKilling.length = cfg.n) :
+    ∃ hk, (step cfg env m).st = { m.st with handKilling := hk } ∧
+      (step cfg env m).ctl = .updKill none :: rest ∧ hk.length = cfg.n ∧
+      ∀ i, i < cfg.n → getB hk i =
+        (if getB m.st.statuses i then (decide (1 < m.st.liveCount) && !W i) else getB m.st.handKilling i) := by
+  obtain ⟨hk, h1, h2, h3⟩ := kill_fold (cfg := cfg) (env := env) m.st W hW hlen
+  refine ⟨hk, ?_, ?_, h2, h3⟩
+  · unfold step; rw [hctl]; simp only [hclear, Bool.false_eq_true, if_false, h1]; rfl
+  · unfold step; rw [hctl]; simp only [hclear, Bool.false_eq_true, if_false, h1]; rfl
+
+/-- a player left alone in the hand is never killed -/
+theorem C12_lone_not_killed (m : M) (rest : List Ctl) (hctl : m.ctl = .beginKill :: rest)
+    (hclear : anyB m.st.handKilling = false) (W : Nat → Bool)
+    (hW : ∀ i, i < cfg.n → getB m.st.statuses i = true → m.st.canWinNow cfg env i = .ok (W i))
+    (hlen : m.st.handKilling.length = cfg.n) (hlone : m.st.liveCount = 1) (i : Nat) (hi : i < cfg.n)
+    (hs : getB m.st.statuses i = true) : getB (step cfg env m).st.handKilling i = false := by
+  obtain ⟨hk, e1, _, _, h3⟩ := C12_kill_set m rest hctl hclear W hW hlen
+  rw [e1]
+  show getB hk i = false
+  rw [h3 i hi, hs]; simp [hlone]
 
 /-- **tournament mode: all hole cards must be shown** — a show of fewer known cards than the
     player holds is refused with ValueError (all-in or not, final street or not) -/
